@@ -348,7 +348,14 @@ func prepareCorrectionOptions(o *CorrectionOptions, opts ...schema.Option) error
 
 	// Copy over the stamps from the previous header
 	if o.Head != nil && len(o.Head.Stamps) > 0 {
-		o.Stamps = append(o.Stamps, o.Head.Stamps...)
+		// copy them: the options may be overwritten below, and must never
+		// share memory with the header of the document being corrected
+		for _, s := range o.Head.Stamps {
+			if s != nil {
+				sc := *s
+				o.Stamps = append(o.Stamps, &sc)
+			}
+		}
 	}
 
 	// If we have a raw json object, this will override any of the other options
